@@ -683,9 +683,30 @@ def main():
             raise
         except Exception as e:
             tripwire = {"error": repr(e)}
+        # Assumption A3 scan (changed trees only).  The units replace derives by their own structural derives, declare the
+        # thiserror-generated From conversions as plain wrappers and know nothing of Drop / Deref.  A NEW hand-written impl of such a
+        # trait in a crate this property's units draw code from is code the contracts do not see: "all obligations discharged" then
+        # says nothing about it, and with no failing input from the bounded run the honest answer is UNDECIDED, not OK.
+        a3 = []
+        try:
+            import update_baseline
+            if tripwire is not None and tripwire.get("changed_files"):
+                allowed = set(json.load(open(os.path.join(ROOT, "vc", "baseline_impls.json")))["impls"])
+                crates = set()
+                for u in pcfg.get("units", []) + pcfg.get("kani", []):
+                    for f in unit_source_files(u): crates.add(f.split("/")[0])
+                for e in update_baseline.manual_impls(a.repo):
+                    if "%s: %s" % (e["file"], e["impl"]) not in allowed and e["file"].split("/")[0] in crates:
+                        a3.append("%s:%d impl %s" % (e["file"], e["line"], e["impl"]))
+        except Exception as e:
+            a3 = []
         if tripwire is not None:
+            if a3: tripwire["assumption_A3_new_manual_impls"] = a3
             ev["coverage"]["tripwire"] = tripwire
             json.dump(ev, open(os.path.join(evdir, prop + ".json"), "w"), indent=1)
+        if a3:
+            print("UNDECIDED assumption A3 (derived / generated trait impls are structural, conversions only wrap, no Drop) is not known to hold on this tree: new hand-written %s; every obligation is discharged but the contracts do not see that code, and the bounded run found no failing input" % "; ".join(a3[:4]))
+            sys.exit(2)
         print("OK property=%s obligations=%d discharged=%d units=%s wall=%.1fs" % (prop, obligations, discharged, ",".join(r["unit"] for r in results), wall))
         sys.exit(0)
     finally:
